@@ -611,6 +611,19 @@ func genRay3(rng *rand.Rand, s *subject3) (o, d V3) {
 		// very short or very long direction vectors: the ray parameter scales inversely
 		d = d.Scale(logUniform(rng, -6, 6))
 	}
+	// zero components of either sign (a negated axis vector has -0 components; 1/-0 = -Inf)
+	if rng.Intn(2) == 0 {
+		nz := math.Copysign(0, -1)
+		if d.X == 0 && rng.Intn(2) == 0 {
+			d.X = nz
+		}
+		if d.Y == 0 && rng.Intn(2) == 0 {
+			d.Y = nz
+		}
+		if d.Z == 0 && rng.Intn(2) == 0 {
+			d.Z = nz
+		}
+	}
 	return o, d
 }
 
